@@ -20,6 +20,7 @@ import (
 
 type memProg struct {
 	Exp     int        `json:"exp"`     // lifetime of a cached value in time units, 0 = for ever
+	Pre     []string   `json:"pre"`     // steps made one after the other before the threads start
 	Threads [][]string `json:"threads"` // per thread: "m0" "m1" (Memoize of key 0/1), "adv<d>"
 	Fail    []int      `json:"fail"`    // execution numbers (1-based) that return an error
 }
@@ -56,9 +57,10 @@ func memRun(p memProg, run func(bodies []func()) *vsync.Result) ([]tt.Op, error)
 	}
 	nexec := 0
 	var bodies []func()
-	for ti, ops := range p.Threads {
-		id, ops := ti+1, ops
-		bodies = append(bodies, func() {
+	threads := append([][]string{p.Pre}, p.Threads...)
+	for ti, ops := range threads {
+		id, ops := ti, ops // the prefix runs as thread 0, outside the scheduler
+		body := func() {
 			for _, o := range ops {
 				if o[0] == 'a' {
 					var d int
@@ -70,10 +72,15 @@ func memRun(p memProg, run func(bodies []func()) *vsync.Result) ([]tt.Op, error)
 				k := int(o[1] - '0')
 				vsync.Point()
 				ev = append(ev, op("inv", id, k))
-				it, err := m.Memoize(fmt.Sprintf("k%d", k), func() (*cache.Item[int], error) {
+				// long keys that share their first 24 bytes
+				it, err := m.Memoize(fmt.Sprintf("memoized-computation-key-%d", k), func() (*cache.Item[int], error) {
 					nexec++
 					e := nexec
-					ev = append(ev, op("fnstart", vsync.CurrentThread(), k, e))
+					th := vsync.CurrentThread()
+					if !vsync.Active() {
+						th = 0
+					}
+					ev = append(ev, op("fnstart", th, k, e))
 					vsync.Point() // the computation takes a while: anything may happen meanwhile
 					if fails[e] || e > 8 {
 						ev = append(ev, op("fnend", e, 0, 0))
@@ -91,7 +98,12 @@ func memRun(p memProg, run func(bodies []func()) *vsync.Result) ([]tt.Op, error)
 					ev = append(ev, op("ret", id, 1, it.Val()))
 				}
 			}
-		})
+		}
+		if ti == 0 {
+			body()
+		} else {
+			bodies = append(bodies, body)
+		}
 	}
 	res := run(bodies)
 	if res.Stuck {
@@ -106,6 +118,12 @@ func memRun(p memProg, run func(bodies []func()) *vsync.Result) ([]tt.Op, error)
 	}
 	for id := range res.Panics {
 		ev = append(ev, op("panic", id))
+	}
+	if p.Pre == nil {
+		p.Pre = []string{}
+	}
+	if p.Fail == nil {
+		p.Fail = []int{}
 	}
 	end.X = memSched{Kind: "sched", Prog: p, Choices: append([]int{}, res.Choices...)}
 	return append(ev, end), nil
@@ -127,6 +145,15 @@ func memPrograms(full bool) []memProg {
 	}
 	key := func(s []string) string { b, _ := json.Marshal(s); return string(b) }
 	var out []memProg
+	// after a value was cached and has expired (not purged: there is no cleanup), and after a value was
+	// cached and is still live: what concurrent callers do then
+	for _, pre := range [][]string{{"m0", "adv6"}, {"m0"}, {"m0", "adv6", "m0", "adv6"}} {
+		for _, f := range [][]int{{}, {2}} {
+			for _, th := range [][][]string{{{"m0"}, {"m0"}}, {{"m0", "m0"}, {"m0"}}, {{"m0"}, {"m1"}}, {{"m0", "m0"}, {"adv6"}}} {
+				out = append(out, memProg{Exp: 5, Pre: pre, Threads: th, Fail: f})
+			}
+		}
+	}
 	fails := [][]int{{}, {1}, {2}, {1, 2}}
 	for _, exp := range []int{0, 5} {
 		for _, f := range fails {
